@@ -54,15 +54,18 @@ struct FRange {
     }
     bool empty() const { return b >= e; } bool is_divisible() const { return e - b > 1; }
 };
+static std::atomic<long> g_body_live{0}, g_body_neg{0};      // Bodies constructed minus destroyed; a destructor on an object that was never constructed drives it negative
 struct FBody {
-    FBody() {}
-    FBody(const FBody&) { if (++g_copy_calls == g_copy_at) { g_fault_fired++; throw Ex(-2); } }
+    FBody() { g_body_live++; }
+    FBody(const FBody&) { if (++g_copy_calls == g_copy_at) { g_fault_fired++; throw Ex(-2); } g_body_live++; }
+    ~FBody() { if (--g_body_live < 0) g_body_neg++; }
     void operator()(const FRange& r) const { for (int i = r.b; i < r.e; ++i) body(1000000 + i); }
 };
 struct FRBody {
     long sum = 0;
-    FRBody() {}
-    FRBody(FRBody&, tbb::split) { if (++g_copy_calls == g_copy_at) { g_fault_fired++; throw Ex(-3); } }
+    FRBody() { g_body_live++; }
+    FRBody(FRBody&, tbb::split) { if (++g_copy_calls == g_copy_at) { g_fault_fired++; throw Ex(-3); } g_body_live++; }
+    ~FRBody() { if (--g_body_live < 0) g_body_neg++; }
     void operator()(const FRange& r) { for (int i = r.b; i < r.e; ++i) { body(1000000 + i); sum += i; } }
     void join(FRBody& o) { sum += o.sum; }
 };
@@ -153,6 +156,7 @@ int main(int argc, char** argv) {
                 // the injected fault (if it fired) must reach the caller exactly once; if it did not fire nothing may be thrown
                 if ((caught - c0) != (g_fault_fired.load() > 0 ? 1 : 0)) wrong++;
                 if (running_at_return) wrong++;
+                if (g_body_live.load() != 0 || g_body_neg.load() != 0) { wrong++; g_body_live = 0; g_body_neg = 0; }      // every Body the library created is destroyed exactly once, none that was not created
             }
             g_split_at = g_copy_at = -1;
             badvalue = wrong; caught = 0; g_threw = 0;
